@@ -47,7 +47,7 @@ def run(chk, replay=None):
         t_phase = now
         chk.coverage['phase_seconds'] = phases
     broken = chk.lean(['Lcapy/Props/C03.lean', 'Lcapy/Props/C03Lap.lean', 'Lcapy/Props/C03Noise.lean', 'Lcapy/Props/C03Wire.lean',
-                       'Lcapy/Props/C03Groups.lean'],
+                       'Lcapy/Props/C03Groups.lean', 'Lcapy/Props/NonVacuityC03.lean'],
                       helper_files=['Lcapy/Proofs/Linear.lean', 'Lcapy/Proofs/LinearN.lean', 'Lcapy/Proofs/MNA.lean', 'Lcapy/Model/MNA.lean',
                                     'Lcapy/Model/Sources.lean', 'Lcapy/Model/Decompose.lean', 'Lcapy/Spec/Laws.lean',
                                     'Lcapy/Model/Reassemble.lean', 'Lcapy/Proofs/Reassemble.lean', 'Lcapy/Model/NoiseAlg.lean',
